@@ -97,6 +97,8 @@ class LegacyDFXPWriter(BaseWriter):
         self.open_span = False
 
     def write(self, caption_set, force=''):
+        # a span left open by an earlier write() must not leak into this one
+        self.open_span = False
         caption_set = deepcopy(caption_set)
         caption_set = merge_concurrent_captions(caption_set)
 
